@@ -19,7 +19,6 @@ from rig.machine_control.packets import SDPPacket, SCPPacket
 H = ["reply_expected", "tag", "dest_port", "dest_cpu", "src_port", "src_cpu", "dest_x", "dest_y",
      "src_x", "src_y"]
 S = ["cmd_rc", "seq", "arg1", "arg2", "arg3"]
-MASK = (1 << 61) - 1
 
 
 def mk_sdp(p):
@@ -60,9 +59,12 @@ def dec(cls, show, bs, *n):
 
 
 def digest(h, bs):
+    """Fletcher-style running digest [a, c]: a += b + 1; c += a"""
+    a, c = h
     for b in bs:
-        h = (h * 257 + b + 1) & MASK
-    return h
+        a += b + 1
+        c += a
+    return [a, c]
 
 
 def run_case(c):
@@ -78,20 +80,20 @@ def run_case(c):
     if k == "dec_scp":
         return dec(SCPPacket, show_scp, c[1], *([] if c[2] is None else [c[2]]))
     if k == "sweep16":
-        h = 0
+        h = [0, 0]
         q = list(c[2])
         for v in range(c[3], c[4]):
             q[c[1]] = v
             r = enc(mk_scp(q))
-            h = digest(h, r[1]) if r[0] == "ok" else (h * 257 + 300) & MASK
+            h = digest(h, r[1] if r[0] == "ok" else [300])
         return ["digest", h]
     if k == "sweep16dec":
-        h = 0
+        h = [0, 0]
         bs = list(c[2])
         for v in range(c[3], c[4]):
             bs[c[1]], bs[c[1] + 1] = v & 255, v >> 8
             r = dec(SCPPacket, show_scp, bs, 3)
-            h = digest(h, r[1][11:13]) if r[0] == "ok" else (h * 257 + 300) & MASK
+            h = digest(h, r[1][11:13] if r[0] == "ok" else [300])
         return ["digest", h]
     if k == "sweep16raw":
         # for the oracle: the encoding (hex) of every packet of the sweep, and True when decoding it with
